@@ -10,6 +10,7 @@ class Scenario:
         self.flags = [] if flags == "-" else flags.split(",")
         self.events = []   # (seq, ns, thread, point, arg)
         self.resps = []    # (task id, case id, result, writes, accepted bytes, flushes)
+        self.panics = []   # (thread, message, "file|function")
 
 
 def parse(path):
@@ -25,6 +26,11 @@ def parse(path):
             s = cur.get(p[1])
             if s is not None:
                 s.events.append((int(p[2]), int(p[3]), p[4], p[5], int(p[6])))
+        elif p[0] == "PANIC":
+            s = cur.get(p[1])
+            if s is not None:
+                un = lambda x: b"" if x == "-" else bytes.fromhex(x)
+                s.panics.append((p[2], un(p[3]).decode("utf-8", "replace"), un(p[4]).decode("utf-8", "replace")))
         elif p[0] == "RESP":
             s = cur.get(p[1])
             if s is not None:
